@@ -267,6 +267,21 @@ End Src.
 
 Arguments LGet {V}. Arguments LSet {V}. Arguments LSetIf {V}. Arguments LDraw {V}.
 
+(* statements that address entries of per-individual dictionaries only (never `model.state`, whatever the names are bound to) *)
+Definition at_obj (o : sobj) : bool := match o with OAt _ => true | _ => false end.
+Definition atom_at (a : atom) : bool :=
+  match a with
+  | AClone dst _ => at_obj dst
+  | APut o _ _ | AGet o _ | AWork _ o => at_obj o
+  | ADraws _ _ => true
+  | _ => false
+  end.
+
+(* how the algorithm obtains ITS parameters from the caller's settings (algo/base.py, BaseAlgorithm.__init__) *)
+Inductive copy_kind := CopyDeep | CopyShallow | CopyAlias.
+Definition copy_of (k : copy_kind) (h : heap) (a : nat) : heap * nat :=
+  match k with CopyDeep => deep_copy h a | CopyShallow => shallow_copy h a | CopyAlias => alias h a end.
+
 (* ---------------------------------------------------------------------- the calls as the model expects them
    (reference programs: SrcProgGenProofs.v shows `gen_* = ref_*` for the programs regenerated from the source, by
    computation; SrcProgProofs.v shows what the reference programs denote, for every instance) *)
